@@ -39,6 +39,7 @@ type thread struct {
 	// foreground thread can
 	background bool
 	label      string // name given by zzverif.Go (used to force schedules in native replays)
+	afterGate  bool   // passed a single-point gate: its next visible operation is logged as "<label>:+"
 }
 
 type outcome struct {
@@ -155,9 +156,22 @@ func (s *sched) handoff(from, to *thread) {
 	}
 }
 
+// logAfter records that the thread goes on after a single-point gate (see YieldAt).
+func (s *sched) logAfter(t *thread) {
+	if t != nil && t.afterGate {
+		t.afterGate = false
+		name := t.label
+		if name == "" {
+			name = "?"
+		}
+		s.schedLog = append(s.schedLog, name+":+")
+	}
+}
+
 // yield is called before every visible operation.
 func (s *sched) yield(what string) {
 	t := s.cur
+	s.logAfter(t)
 	t.writes++ // visible operations are never part of a pure spin iteration… except reads (see yieldRead)
 	if !s.explore {
 		return
@@ -170,6 +184,7 @@ func (s *sched) yield(what string) {
 // yieldRead is yield for read-only visible operations (atomic loads, RLock-free reads).
 func (s *sched) yieldRead(what string) {
 	t := s.cur
+	s.logAfter(t)
 	if !s.explore {
 		return
 	}
@@ -181,6 +196,7 @@ func (s *sched) yieldRead(what string) {
 // block suspends the current thread until cond holds.
 func (s *sched) block(cond func() bool, what string) {
 	t := s.cur
+	s.logAfter(t)
 	if cond() {
 		return
 	}
@@ -282,9 +298,11 @@ func (in *interp) threadMain(t *thread, fn value, args []value) {
 			return
 		}
 	}()
-	fr := &frame{in: in, fn: nil, th: t}
-	_ = fr
+	if t.label != "" {
+		s.schedLog = append(s.schedLog, t.label+":start")
+	}
 	in.callTop(t, fn, args)
+	s.logAfter(t)
 	t.state = tDone
 	if t.id == 0 {
 		s.finish(outcome{end: pathEnd{kind: "done"}})
